@@ -371,11 +371,16 @@ class DnsNameUncompressed(ParsableBase, Serializable):
 
         labels = []
         while True:
+            label_offset = parser.parsed_length
             parser.parse_string('label', 1, encoding='idna')
             label = parser['label']
 
             if not label:
                 break
+
+            # a label has at most 63 octets (RFC 1035 2.3.4), and a dot inside a label has no textual form
+            if parser.parsed_length - label_offset - 1 > 63 or '.' in label:
+                raise InvalidValue(label, cls, 'labels')
 
             labels.append(label)
 
